@@ -71,8 +71,9 @@ class PyObj:
     """An opaque Python object whose behaviour is given by the contract, not by code: `attrs` (name -> value) are what attribute access yields,
     `methods` (name -> f(engine, call_node, state, spec)) what a method call does, `call` what calling the object itself does."""
 
-    def __init__(self, kind, attrs=None, methods=None, call=None):
+    def __init__(self, kind, attrs=None, methods=None, call=None, binop=None, setitem=None):
         self.kind, self.attrs, self.methods, self.call = kind, attrs or {}, methods or {}, call
+        self.binop, self.setitem = binop, setitem        # binop(engine, op, other, self_is_left) ; setitem(engine, target_node, value, state)
 
     def __repr__(self):
         return "<PyObj %s>" % self.kind
@@ -419,6 +420,10 @@ class Engine:
         return None
 
     def arith(self, op, a, b, node):
+        if isinstance(a, PyObj) and a.binop is not None:
+            return a.binop(self, op, b, True)
+        if isinstance(b, PyObj) and b.binop is not None:
+            return b.binop(self, op, a, False)
         if isinstance(a, (int, float)) and isinstance(b, (int, float)) and not isinstance(op, ast.Div):
             return {ast.Add: lambda: a + b, ast.Sub: lambda: a - b, ast.Mult: lambda: a * b,
                     ast.FloorDiv: lambda: a // b, ast.Mod: lambda: a % b, ast.Pow: lambda: a ** b,
@@ -570,7 +575,7 @@ class Engine:
     def ev_BinOp(self, e, st, spec):
         a = self.ev(e.left, st, spec)
         b = self.ev(e.right, st, spec)
-        if isinstance(e.op, (ast.FloorDiv, ast.Mod, ast.Div)) and not spec and not isinstance(b, (int, float)):
+        if isinstance(e.op, (ast.FloorDiv, ast.Mod, ast.Div)) and not spec and not isinstance(b, (int, float)) and not isinstance(a, PyObj):
             if z3.is_expr(b) and z3.is_int(b):
                 self.oblige(st, b != 0, "divzero@L%s" % e.lineno, "bounds", e)
         return self.arith(e.op, a, b, e)
@@ -895,6 +900,9 @@ class Engine:
                 self.assign_to(te, v, st, node)
         elif isinstance(t, ast.Subscript) and isinstance(t.value, ast.Name):
             base = st.env.get(t.value.id)
+            if isinstance(base, PyObj) and base.setitem is not None:
+                base.setitem(self, t, val, st)
+                return None
             if isinstance(base, Arr):
                 sl = t.slice
                 if isinstance(sl, ast.Slice):
@@ -1009,6 +1017,8 @@ class Engine:
             elif isinstance(v, PyList):
                 st.env[n] = PyList(self.fresh(n, v.term.sort()), self.fresh(n + "_len", z3.IntSort()), v.elem)
                 st.assume(st.env[n].length >= 0)
+            elif isinstance(v, (PyObj, tuple, str)) or v is None:
+                continue            # contract objects / constants: immutable in this model
             elif z3.is_expr(v):
                 st.env[n] = self.fresh(n, v.sort())
             elif isinstance(v, bool):
